@@ -191,7 +191,9 @@ fn c06_players_two_datagrams() {
     let mut p1 = Enc::new();
     p1.u8(0x80).u8(0).u8(0).u8(0).u8(2);
     p1.le32(id1);
-    ustr(&mut p1, "Bo");
+    // an unnamed player: the empty string is a single zero byte, so this record is the
+    // shortest possible one (17 bytes) and it ends the datagram
+    p1.u8(0);
     p1.le32(ping1).le32(score1 as u32).le32(st1);
     world().push_data(p1.v);
     let gs = GatheringSettings {
@@ -212,7 +214,7 @@ fn c06_players_two_datagrams() {
             } else {
                 &x.players.players[2 - n_bots - 1]
             };
-            assert!(q.name == "Bo" && q.id == id1 && q.ping == ping1 && q.score == score1 && q.stats_id == st1);
+            assert!(q.name == "" && q.id == id1 && q.ping == ping1 && q.score == score1 && q.stats_id == st1);
             kani::cover!(n_bots == 1, "one bot, one player");
         }
         Err(_) => assert!(false),
@@ -258,6 +260,52 @@ fn c06_mutators_and_rules() {
             }
             assert!(x.server_info.password);
             kani::cover!(true, "rules decoded");
+        }
+        Err(_) => assert!(false),
+    }
+    core::mem::forget(r);
+}
+
+/// A rule key repeated across two datagrams: both values are kept under the
+/// key, in order of arrival (the merge must not replace earlier values).
+#[cfg(kani)]
+#[kani::proof]
+#[kani::unwind(20)]
+#[kani::stub(alloc::fmt::format, stub_format)]
+#[kani::stub(core::slice::memchr::memchr, stub_memchr)]
+#[kani::stub(encoding_rs::Encoding::decode, stub_encoding_decode)]
+#[kani::stub(std::io::_print, stub_print)]
+fn c06_rules_repeated_key_across_datagrams() {
+    let addr = any_addr_v4();
+    world().push_data(server_info_reply(0));
+    let mut m = Enc::new();
+    m.u8(0x80).u8(0).u8(0).u8(0).u8(1);
+    ustr(&mut m, "k");
+    ustr(&mut m, "v1");
+    world().push_data(m.v);
+    let mut m2 = Enc::new();
+    m2.u8(0x80).u8(0).u8(0).u8(0).u8(1);
+    ustr(&mut m2, "k");
+    ustr(&mut m2, "v2");
+    ustr(&mut m2, "j");
+    ustr(&mut m2, "w");
+    world().push_data(m2.v);
+    let gs = GatheringSettings {
+        players: GatherToggle::Skip,
+        mutators_and_rules: GatherToggle::Enforce,
+    };
+    let r = unreal2::query(&addr, &gs, None);
+    match &r {
+        Ok(x) => {
+            assert!(x.mutators_and_rules.rules.len() == 2);
+            match x.mutators_and_rules.rules.get("k") {
+                Some(v) => assert!(v.len() == 2 && v[0] == "v1" && v[1] == "v2"),
+                None => assert!(false),
+            }
+            match x.mutators_and_rules.rules.get("j") {
+                Some(v) => assert!(v.len() == 1 && v[0] == "w"),
+                None => assert!(false),
+            }
         }
         Err(_) => assert!(false),
     }
